@@ -61,7 +61,15 @@ PRESETS = [("passlib.apps", "custom_app_context", ["sha512_crypt", "sha256_crypt
            ("passlib.apps", "mysql_context", ["mysql41"]),
            ("passlib.hosts", "linux_context", ["sha512_crypt", "sha256_crypt", "md5_crypt", "des_crypt", "bcrypt"]),
            ("passlib.hosts", "host_context", ["sha512_crypt", "md5_crypt", "des_crypt"]),
-           ("passlib.hosts", "freebsd_context", ["bcrypt", "md5_crypt", "des_crypt", "bsdi_crypt"])]
+           ("passlib.hosts", "freebsd_context", ["bcrypt", "md5_crypt", "des_crypt", "bsdi_crypt"]),
+           ("passlib.hosts", "openbsd_context", ["bcrypt", "md5_crypt", "bsdi_crypt", "des_crypt"]),
+           ("passlib.hosts", "netbsd_context", ["bcrypt", "sha1_crypt", "md5_crypt", "bsdi_crypt", "des_crypt"]),
+           ("passlib.apps", "django10_context", ["django_salted_sha1", "hex_md5"]),
+           ("passlib.apps", "django14_context", ["django_pbkdf2_sha256", "django_bcrypt", "django_salted_sha1"]),
+           ("passlib.apps", "django16_context", ["django_pbkdf2_sha256", "django_bcrypt_sha256", "django_bcrypt", "django_salted_sha1"]),
+           ("passlib.apps", "roundup_context", ["ldap_hex_md5", "ldap_des_crypt"]),
+           ("passlib.apps", "roundup10_context", ["ldap_hex_md5", "ldap_des_crypt"]),
+           ("passlib.apps", "phpbb3_context", ["phpass"])]
 REGISTRY_SIBLINGS = [["bcrypt", "bcrypt_sha256"], ["cisco_pix", "cisco_asa", "cisco_type7"], ["bigcrypt", "bsdi_crypt", "crypt16", "des_crypt"],
                      ["hex_md4", "hex_md5", "hex_sha1", "hex_sha256", "hex_sha512", "htdigest"],
                      ["django_pbkdf2_sha256", "django_pbkdf2_sha1", "django_salted_sha1", "django_salted_md5", "django_des_crypt", "django_disabled"],
